@@ -70,6 +70,16 @@ CHECKS = {
    text='Transparency: one tree with three sub-Manifests under all 125 assignments of {plain, gz, bz2, lzma, xz} x 6 tree mutations x 22 verification/lookup queries - the observation must not depend on the assignment. Watermark: 5 start assignments x every watermark in {0, s-1, s, s+1 for each uncompressed size s, max+1} x 4 target formats x forced/unforced x edits, and every sequence of <=3 (4) saves over a 6-step alphabet (re-compression in both directions): every rewritten sub-Manifest is compressed iff its uncompressed size >= watermark, compressed files keep their format, the top-level Manifest stays plain, one file per logical Manifest, the tree verifies (reference and gemato).',
    note='Trusted: gverif/refverify.py, sys.addaudithook to observe which Manifests a save wrote. Manifests not rewritten by an unforced save are DONT_CARE. old-ebuild package Manifests are judged under C19.',
    ref='DESIGN.md §3 C13'),
+ 'C14': dict(level='model_checking',
+   technique='exhaustive enumeration of the option product (sign option x original state x key id x signer behaviour x layout x contents x change/forced x interface) on the real update/save with a scripted gpg (fake subprocess) and with real gpg',
+   text='The full product sign option {unset,on,off} x top-level {signed+verified, unsigned, signed but unverified, signed by a previous gemato run} x key id {explicit, default} x signer {works, exits non-zero, binary missing, secret key missing} x 4 layouts x 3 content classes (incl. names needing escapes and armor look-alike file names) x {real change, forced save} x {library, CLI}, plus compressed/renamed top-level variants: 7k (quick) / 33k (thorough) update+save runs against a scripted clear-sign backend that records argv and stdin, and against real gpg with two keys. Signed iff requested or originally signed+verified; signed cleartext = written entries = what the tree needs; verifies with the expected key; sub-Manifests never contain armor; signer failure raises / exits 1 and never leaves a plain Manifest with the new entries.',
+   note='Trusted: the harness envelope parser, refmanifest/refverify, GnuPG 2.2.40 for the real half; the scripted scheme is a toy that checks framing only. Observed and noted (not a violation of the statement): on signer failure the top-level file is left empty.',
+   ref='DESIGN.md §3 C14'),
+ 'C18': dict(level='exploration',
+   technique='exhaustive enumeration of the union of the C01/C03/C09 case spaces plus named odd corners through the real CLI in-process with an escaping-exception classifier and OSError attribution',
+   text='Every tree of the C01 families, every C03 prior state x edit, the C09 line-grammar product installed as top-level Manifest, and 45 named odd corners (duplicate IGNORE, unknown/unsupported hash names, out-of-range/surrogate/NUL escapes, entries naming directories or lying beneath files, self-referencing and cyclic MANIFEST entries, unreferenced Manifests in sub-directories and beside the top-level one, non-UTF-8 file names, old-ebuild files/ with stray Manifests...) are run through gemato verify, verify -k, update (whole tree and every sub-directory, three profiles, forced), create: 54k (quick) CLI runs. The only ways out of main() may be a return value, an argparse exit, a logged library error with status 1, or an OSError that re-issuing the call on its filename reproduces.',
+   note='Trusted: the classifier in the harness. DONT_CARE: deliberate NotImplementedError for a now-ignored path; corrupt compressed Manifest streams. Two known findings (escaped NUL in a path - pinned by an existing test; unreferenced compressed Manifest beside the top-level one).',
+   ref='DESIGN.md §3 C18'),
 }
 NOT_YET = {}
 
